@@ -150,6 +150,15 @@ def mutate(rng, base, family):
             bad = int(rng.choice([n - 1, n + 1])) if n > 2 else n + 1
             inp["breaker"] = [(row + [row[-1]])[:bad] for row in inp["breaker"]]
             mut.update(component="bus-tie breakers", field="breaker", bad_length=bad)
+            if rng.random() < 0.5:
+                # … next to consumers that are all constants held as one value: the sums are then stretched to the breaker length,
+                # and the breaker series used to be compared with itself (D141)
+                store = R.elec_inputs(case)["comp"]
+                for v in store.values():
+                    if "load" in v and isinstance(v["load"], list):
+                        v["load"] = [v["load"][0]] * len(v["load"])
+                (inp.get("flags") if "flags" in inp else inp)["constants_single"] = True
+                mut["constant_consumers"] = True
             case["mutation"] = mut
             return case
         store = R.elec_inputs(case)["comp"] if el else R.mech_inputs(case)["comp"]
